@@ -403,6 +403,10 @@ def parse_file_contents(data):
     :returns: A dict of the form ``{'policy_name1': 'policy1',
         'policy_name2': 'policy2,...}``
     """
+    if not data:
+        # An empty file, or one that has vanished since it was first loaded
+        # (read_cached_file() hands back an empty dict then), holds no rules
+        return {}
     try:
         # NOTE(snikitin): jsonutils.loads() is much faster than
         # yaml.safe_load(). However jsonutils.loads() parses only JSON while
